@@ -104,4 +104,38 @@ PROPS = {
             "a lost update on a plain double cannot happen under a serialising scheduler: such races are decided by ThreadSanitizer inside the simulated run",
         ],
     },
+    "C18": {
+        "harness": "c18_shared",
+        "level": "exploration",
+        "rule": ("one run = one scenario under one seeded schedule: (0) 2-8 simulated threads minimise their own functions (every evaluation is a schedule point) "
+                 "on ONE shared solver instance of a deterministic solver type with random line-search pairing, (1) 2-8 threads call value/vgrad/error of one shared "
+                 "loss on shared tensors, (2) 2-8 threads use one shared dataset through flatten/select/targets with their own buffers and through their own "
+                 "iterators over the shared dataset pool, (3) 2-6 threads call predict and evaluate on one shared fitted linear / gradient-boosting model with dataset "
+                 "pools of 1, 2, 3, 16 workers and several evaluation batches, (4) a complete fit() of a linear (ordinary, ridge) or gradient-boosting model under a "
+                 "simulated core count and schedule compared with the same fit on one core; oracle = bit-identity with the same call alone (0-3), same selected features "
+                 "and predictions within 1e-5 relative (4), no deadlock state, no ThreadSanitizer report; non-trivial = at least 2 simulated threads and 1 context switch; "
+                 "distinct = distinct trace hash"),
+        "batches": [
+            {"name": "plain", "cfg": "plain", "tiers": ["quick", "thorough"], "runs": {"quick": 10000, "thorough": 500000},
+             "wall_cap": {"quick": 240, "thorough": 3000}},
+            {"name": "tsan", "cfg": "tsan", "tiers": ["quick", "thorough"], "runs": {"quick": 2400, "thorough": 100000},
+             "extra": ["--set", "max_cores=6"], "wall_cap": {"quick": 240, "thorough": 3000}},
+            {"name": "asan", "cfg": "asan", "tiers": ["quick", "thorough"], "runs": {"quick": 2400, "thorough": 100000},
+             "wall_cap": {"quick": 240, "thorough": 3000}},
+        ],
+        "gate": {"quick": 44, "thorough": 300},
+        "shrink": [("threads", 2), ("pool", 1), ("pool", 2), ("big", 0), ("cores", 2), ("sim_faults", 0), ("p_spurious_ppm", 0), ("p_eagain_ppm", 0)],
+        "expected_probes": ["solver_runs", "solver_line_search", "solver_other", "loss_runs", "dataset_runs", "dataset_pool_shared_by_submitters", "model_runs",
+                            "model_linear", "model_gboost", "evaluate_with_several_batches_and_small_inner_batch", "fit_runs", "fit_linear", "fit_gboost",
+                            "rt_mutex_contended", "rt_futex_blocked"],
+        "real": REAL_COMMON + ["solver_t::minimize of every deterministic solver id with the registered line-search objects, every loss, dataset_t + generators + iterators, "
+                               "linear_t / gboost_model_t fit, predict, evaluate, ml::tune, weak learners"],
+        "stub": STUB_COMMON + ["the functions minimised in scenario 0 (harness quadratics / piecewise-linear / Rosenbrock-like functions that yield inside do_vgrad)"],
+        "assumptions": ASSUME_COMMON + [
+            "the four gradient-sampling solvers draw entropy by design and are excluded from 'deterministic solver types'",
+            "dataset_t::drop/shuffle are const-qualified but mutate and are never called concurrently (outside the quantifier)",
+            "scenario 4 uses well-conditioned setups (standardised inputs, tight solver tolerance) and 1e-4 for linear models: never stricter than the statement",
+            "code without a synchronisation operation or harness yield inside it cannot be pre-empted by the simulator: unsynchronised sharing there is decided by ThreadSanitizer, not by a wrong value",
+        ],
+    },
 }
